@@ -17,7 +17,7 @@ RULE = ("random perfect-recall trees (shared player and chance infosets, single-
         "of the presentation: rescale (chance weights of a random subset of chance nodes multiplied by powers of two, exact in "
         "binary64), rename (injective relabelling of infosets per player, actions and chance infosets), insert (single-outcome "
         "chance nodes and fresh single-action decision nodes at random positions) / remove (delete every transparent node), scale "
-        "(payoffs x 2^k, exact), scale3 (payoffs x 3, inexact: T <= 10), shift (payoffs + constant, inexact: T <= 10), swap "
+        "(payoffs x 2^k, exact, k from -200 to 150), scale3 (payoffs x 3, inexact: T <= 10), shift (payoffs + constant, inexact: T <= 10), swap "
         "(players exchanged, payoffs negated); each pair (original, transformed) is run through from_root, get_info of a fixed "
         "profile and solve(Full) with a preset (fallback weight 0 or +-inf, as the scaling theorem requires), and the property's "
         "relation between the two results is checked on the implementation's outputs (monitor); each side is also compared with "
@@ -102,6 +102,9 @@ def transform(rng, t, kind):
         return map_tree(t, fchance=fc, fplayer=fp), {}
     if kind in ("scale", "scale3"):
         c = 2.0 ** rng.randint(-4, 5) if kind == "scale" else 3.0
+        if kind == "scale" and rng.random() < 0.4:
+            # far-out units (still exact): absolute tolerances hidden in the solver are not scale invariant
+            c = 2.0 ** rng.choice([-70, -70, -200, -40, 150])
         return map_tree(t, fterm=lambda n: {"t": f2b(b2f(n["t"]) * c)}), {"c": c}
     if kind == "shift":
         k = rng.choice([0.1, -2.5, 7.0, 1e-3])
